@@ -270,6 +270,18 @@ def f32_path(c):
     return c["kind"] in ("ncc", "lcc", "wlcc", "dice", "tversky")
 
 
+def known_class(c, r):
+    """the recorded finding (key) that fully accounts for a disagreement on this case, if it is listed"""
+    key = None
+    if c["kind"] == "tversky" and "error" in r:
+        if c.get("loss") and r["error"] == "TypeError" and "gamma" in r.get("msg", ""):
+            key = "C16:tversky_loss:raises"
+        elif c.get("mask") is not None and c["x"]["shape"][1] == 1 and r["error"] == "ValueError" and "'weight' shape" in r.get("msg", ""):
+            key = "C16:tversky_index:weight-binary-raises"
+    known, _ = vlib.load_findings()
+    return key if key in known else None
+
+
 def run_shard(ctx, cases, res, name):
     lines = [HEADER]
     names = []
@@ -277,6 +289,11 @@ def run_shard(ctx, cases, res, name):
     for i, (c, r) in enumerate(zip(cases, res)):
         if "error" in r:
             impl = "None"
+            kc = known_class(c, r)
+            if kc:
+                _n = f"correspondence: disagreement(s) accounted for by recorded finding {kc}"
+                _n in ctx.notes or ctx.notes.append(_n)
+                continue
             if r["error"] not in ("ValueError", "RuntimeError", "IndexError"):
                 failures.append({"why": f"implementation raised {r['error']} (not a shape/argument rejection)", "impl": r, "case": brief(c)})
                 continue
